@@ -27,6 +27,17 @@ def run(tier):
     trs = S.pmap(S.run_session, PC.algo_cfgs(tier, n=100 if tier == "quick" else 200))
     chk.validate("Trace_Session.tla", "Trace_Session.cfg", trs, "algos", sigfn=sig, nontrivial=lambda t: F.count_mk(t) >= 3)
     chk.notes["algorithm_sessions"] = len(trs)
+    # the trees of the base learners grown under POO / GPO / PCT / VPCT
+    from .. import wraprec as W
+    from . import wrapcommon as WC
+    lts = []
+    for w in S.pmap(W.run_wrap, [dict(c, compose=True, n=min(c["n"], 300), T=min(c["T"], 300)) for c in WC.gpo_cfgs(tier, 380000)[: (6 if tier == "quick" else 40)] + WC.poo_cfgs(tier, 390000)[: (4 if tier == "quick" else 30)]]):
+        if "machinery" in w:
+            raise C.Machinery(w["machinery"])
+        lts += w.get("learner_traces", [])
+    for j, lt in enumerate(lts):
+        lt["id"] = 395000 + j
+    chk.validate("Trace_TreeBandit.tla", "Trace_TreeBandit.cfg", lts, "learners", sigfn=sig, chunk=80, nontrivial=lambda t: F.count_mk(t) >= 1)
     rt = PC.repo_test_traces(chk, tier)
     chk.validate("Trace_Session.tla", "Trace_Session.cfg", rt, "repotests", sigfn=sig, chunk=20, nontrivial=lambda t: F.count_mk(t) >= 3)
     chk.assumptions = ["small-scope: exhaustive models use <= 17 cells, depth <= 4", "cells that become unreachable and unlisted can no longer be observed through the public getters"]
